@@ -36,7 +36,10 @@ func wtx(ops ...string) txProg {
 	return p
 }
 
-var crashKeys = []string{"a", "b", "c", "d"}
+var crashKeys = []string{"a", "b", "c", "d", "A", "B", "C"}
+
+// keys in upper case carry large values
+func crashBig(k string) bool { return k >= "A" && k <= "Z" }
 
 func crashWorkloads() []crashWorkload {
 	return []crashWorkload{
@@ -52,6 +55,9 @@ func crashWorkloads() []crashWorkload {
 			[]txProg{wtx("Sa"), wtx("Sb"), wtx("Sa", "Sc")}, true},
 		{"W6-multikey-atomicity", dbCfg{Mem: 200, Imm: 1, Block: 4096, L0: 2, Ratio: 2, SL: 1},
 			[]txProg{wtx("Sa", "Sb"), wtx("Sa", "Sb", "Sc"), wtx("Da", "Sb", "Sd"), wtx("Sc", "Sd")}, true},
+		// large values (crashBig marks keys whose values are 30 000 bytes): a transaction of more than 64 KiB
+		{"W7-large-multikey", dbCfg{Mem: 100000, Imm: 1, Block: 4096, L0: 2, Ratio: 2, SL: 1},
+			[]txProg{wtx("Sa", "Sb", "Sc", "Sd"), wtx("SA", "SB", "SC", "Sd"), wtx("Sa", "DB", "SC")}, true},
 	}
 }
 
@@ -62,6 +68,9 @@ func crashWrites(w crashWorkload, i int) map[string]*string {
 		switch o.Op {
 		case "S":
 			v := fmt.Sprintf("t%d.%d", i, j)
+			if crashBig(o.K) {
+				v += strings.Repeat("x", 30000)
+			}
 			m[o.K] = &v
 		case "D":
 			m[o.K] = nil
@@ -475,28 +484,51 @@ func analyseCrashes(c *Ctx, w crashWorkload, run crashRun, o crashOpts, dd crash
 						"workload %s, crash at log position %d (%s)%s, recovery clock class %d, acknowledged state %v, in flight #%d:\n%s\nfiles in the image: %v\nlast operations before the crash: %s",
 						w.Name, k, where, tornDesc[vi], cl, exp.acked, inflight, oe.Detail, v.Names(), tailOps(log, k, 8))
 				}
-				// crash again during recovery
-				if o.Nested > 0 && cl == o.Clocks[0] {
+				// crash again during recovery (from the untorn image only when tails are being cut: the product is covered
+				// by cutting the tails of the nested image coarsely - nothing, half, everything unsynced)
+				if o.Nested > 0 && cl == o.Clocks[0] && vi == 0 {
 					base := v
 					for k2 := 1; k2 <= r.openK && k2 < len(r.log); k2++ {
 						if r.log[k2-1].Kind == "mark" {
 							continue
 						}
 						img2 := vos.ImageFrom(base, r.log, k2)
-						h2 := vsched.Mix(img2.Hash(), vsched.HashString(fmt.Sprint(exp.acked, inflight, "n")))
-						if dd[h2] {
-							continue
+						nested := []*vos.FS{img2}
+						ndesc := []string{""}
+						if o.Torn {
+							paths, tails := img2.Dirty()
+							for i, p := range paths {
+								for _, cut := range []int{tails[i], (tails[i] + 1) / 2} {
+									if cut == 0 {
+										continue
+									}
+									n := img2.Clone()
+									n.Cut(p, cut)
+									nested = append(nested, n)
+									ndesc = append(ndesc, fmt.Sprintf(" %s-%dB", shortPath(p), cut))
+								}
+							}
 						}
-						dd[h2] = true
-						st.nested++
-						st.distinct++
-						r2 := recoverImage(img2, w.Cfg, run.endNs.Add(time.Second), (cl+1)%3, exp, o.Atomicity, w, inflight)
-						st.recoveries++
-						if r2.err != nil {
-							oe := r2.err.(*OracleErr)
-							return oerr(oe.Sig+"/nested/"+crashPointClass(r.log, k2),
-								"workload %s, crash at log position %d (%s), second crash during recovery at its log position %d (%s), acknowledged state %v:\n%s\nfiles: %v\nrecovery operations before the second crash: %s",
-								w.Name, k, crashPointClass(log, k), k2, crashPointClass(r.log, k2), exp.acked, oe.Detail, img2.Names(), tailOps(r.log, k2, 8))
+						for ni, n2 := range nested {
+							h2 := vsched.Mix(n2.Hash(), vsched.HashString(fmt.Sprint(exp.acked, inflight, "n")))
+							if dd[h2] {
+								continue
+							}
+							dd[h2] = true
+							st.nested++
+							st.distinct++
+							r2 := recoverImage(n2, w.Cfg, run.endNs.Add(time.Second), (cl+1)%3, exp, o.Atomicity, w, inflight)
+							st.recoveries++
+							if r2.err != nil {
+								oe := r2.err.(*OracleErr)
+								torn := ""
+								if ndesc[ni] != "" {
+									torn = "/torn"
+								}
+								return oerr(oe.Sig+"/nested"+torn+"/"+crashPointClass(r.log, k2),
+									"workload %s, crash at log position %d (%s), second crash during recovery at its log position %d (%s)%s, acknowledged state %v:\n%s\nfiles: %v\nrecovery operations before the second crash: %s",
+									w.Name, k, crashPointClass(log, k), k2, crashPointClass(r.log, k2), ndesc[ni], exp.acked, oe.Detail, n2.Names(), tailOps(r.log, k2, 8))
+							}
 						}
 					}
 				}
@@ -521,7 +553,7 @@ func crashUnit(c *Ctx, prop string, w crashWorkload, budgets []int, o crashOpts)
 	sc := crashScenario(w, func(run crashRun, res vsched.Result) error {
 		return analyseCrashes(c, w, run, o, dd, &st)
 	})
-	ExploreSched(c, sc, SchedOpts{Delay: true, Budgets: budgets, MaxEnv: 0, MaxSteps: 300000, NoCache: true,
+	ExploreSched(c, sc, SchedOpts{Delay: true, Budgets: budgets, MaxEnv: 1, EnvKinds: dbEnvKinds, MaxSteps: 300000, NoCache: true,
 		Sample: func() any {
 			return map[string]any{"workload": w.Name, "config": w.Cfg.String(), "crash_points_so_far": st.images, "distinct_images_so_far": st.distinct}
 		}})
